@@ -25,3 +25,5 @@ func BytesDigest(b []byte) string { return "" }
 func Name(salt, seed []byte, name string, out []byte) {}
 
 func KeepSource(importPath, name string, content []byte) {}
+
+func CanonDigest(names map[string]string, apis map[string]map[int]bool) string { return "" }
